@@ -124,7 +124,7 @@ __CPROVER_assigns(fd->list_notify, fd->list_notify.prev->next, fd->list_notify.n
 __CPROVER_ensures(__CPROVER_return_value == 0)	/* [C02,C03] with a well-behaved kernel the right one of ADD/MOD/DEL was chosen (a wrong choice gets EEXIST/ENOENT) and EINTR was retried */
 __CPROVER_ensures(k_ctl_bad == 0)
 __CPROVER_ensures(fd->registered_bands == fd->wanted_bands && KERNEL_MATCHES(0, fd, fd->wanted_bands))	/* [C02,C01,C03] afterwards the kernel's interest equals the wanted bands; in particular no entry (no stale pointer that could later report events for a reused struct) when nothing is wanted */
-__CPROVER_ensures(UNLINKED(fd))	/* [C01] off the pending-update list */
+__CPROVER_ensures(UNLINKED(fd))	/* [C01,C18] off the pending-update list */
 __CPROVER_ensures(__CPROVER_old(fd->list_notify.next) == &fd->list_notify ||
 	(__CPROVER_old(fd->list_notify.prev)->next == __CPROVER_old(fd->list_notify.next) &&
 	 __CPROVER_old(fd->list_notify.next)->prev == __CPROVER_old(fd->list_notify.prev)))
@@ -144,8 +144,8 @@ __CPROVER_requires(st == verif_st && WF_NODE(&fd->list_notify) && WF_NODE(&st->u
 __CPROVER_assigns(fd->list_notify, fd->list_notify.prev->next, fd->list_notify.next->prev,
 		  st->u.epoll.notify.prev, st->u.epoll.notify.prev->next, st->u.epoll.notify.next)
 __CPROVER_ensures(IMPLIES(fd->registered_bands != fd->wanted_bands,
-	fd->list_notify.next == &st->u.epoll.notify && st->u.epoll.notify.prev == &fd->list_notify))	/* [C02,C01] a change of wanted bands (also the drop to nothing at unregister) is queued, so that the flush / the synchronous unregister push it to the kernel */
-__CPROVER_ensures(IMPLIES(fd->registered_bands == fd->wanted_bands, UNLINKED(fd)))	/* [C02,C01] off the list only when kernel and wanted bands agree */
+	fd->list_notify.next == &st->u.epoll.notify && st->u.epoll.notify.prev == &fd->list_notify))	/* [C02,C01,C03] a change of wanted bands (also the drop to nothing at unregister) is queued, so that the flush / the synchronous unregister push it to the kernel */
+__CPROVER_ensures(IMPLIES(fd->registered_bands == fd->wanted_bands, UNLINKED(fd)))	/* [C02,C01,C03] off the list only when kernel and wanted bands agree */
 __CPROVER_ensures(fd->registered_bands == __CPROVER_old(fd->registered_bands) && fd->wanted_bands == __CPROVER_old(fd->wanted_bands))
 ;
 void h_notify_fd(void)
@@ -164,8 +164,8 @@ __CPROVER_requires(IMPLIES(UNLINKED(fd), fd->registered_bands == fd->wanted_band
 __CPROVER_requires(k_ctl_bad == 0 && k_eintr_budget >= 0 && k_eintr_budget <= 2)
 __CPROVER_assigns(fd->list_notify, fd->list_notify.prev->next, fd->list_notify.next->prev,
 		  fd->registered_bands, k_ep[0], k_eintr_budget, k_ctl_calls, k_ctl_bad, verif_errno)
-__CPROVER_ensures(!k_ep[0].present && fd->registered_bands == 0)	/* [C01] the kernel holds no entry for the fd any more: no later event can carry the stale pointer */
-__CPROVER_ensures(UNLINKED(fd) && k_ctl_bad == 0)	/* [C01] and it is on no pending-update list */
+__CPROVER_ensures(!k_ep[0].present && fd->registered_bands == 0)	/* [C01,C03,C18] the kernel holds no entry for the fd any more: no later event can carry the stale pointer */
+__CPROVER_ensures(UNLINKED(fd) && k_ctl_bad == 0)	/* [C01,C18] and it is on no pending-update list */
 ;
 void h_unregister_fd(void)
 {
